@@ -16,6 +16,7 @@
 #include <mutex>
 #include <set>
 #include <sstream>
+#include <stdexcept>
 #include <string>
 #include <thread>
 #include <vector>
@@ -115,6 +116,34 @@ static std::string run_ets_scenario(int T, int lookups, int reps, Each each) {
     return "ok lookups=" + std::to_string(total);
 }
 
+// real threads + a throwing initialiser: what size(), iteration, combine and a second local() do afterwards
+struct TElem { long magic; TElem() : magic(0x600DC0DE) {} };
+static std::string run_ets_throw(int T, int reps) {
+    std::string first;
+    for (int rep = 0; rep < reps; ++rep) {
+        std::atomic<int> calls{0}, start{0}, have{0}, second_ok{0};
+        tbb::enumerable_thread_specific<TElem> ets([&]() -> TElem { if (calls++ == 1) throw std::runtime_error("init"); return TElem(); });
+        std::vector<std::thread> th;
+        for (int t = 0; t < T; ++t) th.emplace_back([&] {
+            start++; while (start.load() < T) std::this_thread::yield();
+            for (int k = 0; k < 2; ++k) {
+                try { bool ex; TElem& e = ets.local(ex); if (k == 1 && e.magic == 0x600DC0DE) second_ok++; if (k == 0) have++; else if (!ex) have++; }
+                catch (std::runtime_error&) {}
+            }
+        });
+        for (auto& x : th) x.join();
+        int visited = 0, dead = 0;
+        // fresh pages of the vector's segment are zero: a never-constructed TElem has magic 0
+        for (auto& e : ets) { visited++; if (e.magic != 0x600DC0DE) dead++; }
+        if (second_ok.load() != T) return "VIOLATION a second local() after the failure did not return a constructed element";
+        if ((int)ets.size() != T || dead) {
+            if (first.empty()) first = "VIOLATION ets-throwing-initialiser: " + std::to_string(T) + " threads each have one element after the retry, size() = " + std::to_string(ets.size()) +
+                ", iteration visits " + std::to_string(visited) + " elements of which " + std::to_string(dead) + " never constructed, initialiser calls = " + std::to_string(calls.load());
+        }
+    }
+    return first.empty() ? "ok" : first;
+}
+
 int main() {
     char line[4096];
     while (fgets(line, sizeof line, stdin)) {
@@ -128,6 +157,9 @@ int main() {
             char kind; int T, lookups, reps; is >> kind >> T >> lookups >> reps;
             if (kind == 'e') puts(run_ets_scenario<tbb::enumerable_thread_specific<Elem>>(T, lookups, reps, [](tbb::enumerable_thread_specific<Elem>& c, auto f) { for (auto& e : c) f(e); }).c_str());
             else puts(run_ets_scenario<tbb::combinable<Elem>>(T, lookups, reps, [](tbb::combinable<Elem>& c, auto f) { c.combine_each([&](Elem& e) { f(e); }); }).c_str());
+        } else if (w == "etsthrow") {
+            int T, reps; is >> T >> reps;
+            puts(run_ets_throw(T, reps).c_str());
         } else puts("bad-op");
         fflush(stdout);
     }
